@@ -337,12 +337,18 @@ def parOp (s : St) (sched : String) (wa : Nat) (opa : Op) (wb : Nat) (opb : Op) 
   else
     let ra := retStr (g4.ret pa)
     let rb := retStr (g4.ret pb)
+    -- the spec allows either serialisation of the two calls
     let (sp1, r1) := specOp s.sp pa opa
     let (sp2, r2) := specOp sp1 pb opb
-    let s' := record (record { s with g := g4, sp := sp2 } pa opa) pb opb
+    let (sq1, q2) := specOp s.sp pb opb
+    let (sq2, q1) := specOp sq1 pa opa
+    let got := apiOf ra ++ " ; " ++ apiOf rb
+    let spAB := specStr r1 ++ " ; " ++ specStr r2
+    let spBA := specStr q1 ++ " ; " ++ specStr q2
     let m := tr ++ " => " ++ ra ++ " ; " ++ rb
-    let spS := specStr r1 ++ " ; " ++ specStr r2
-    (s', (if apiOf ra ++ " ; " ++ apiOf rb = spS then m else m ++ " SPECDIFF " ++ spS), false)
+    if got = spAB then (record (record { s with g := g4, sp := sp2 } pa opa) pb opb, m, false)
+    else if got = spBA then (record (record { s with g := g4, sp := sq2 } pb opb) pa opa, m, false)
+    else (record (record { s with g := g4, sp := sp2 } pa opa) pb opb, m ++ " SPECDIFF " ++ spAB, false)
 
 def step (s : St) (toks : List String) : IO (St × Bool) := do
   let out (r : St × String × Bool) : IO (St × Bool) := do
